@@ -46,6 +46,12 @@ def rawInScript (i : String) : Option Bytes :=
   | [_, _, sc] => bytes? sc
   | _ => none
 
+/-- the outpoint an input of a case line spends -/
+def rawInOutPoint (i : String) : Option (Bytes × Nat) :=
+  match i.splitOn ":" with
+  | [h, ix, _] => do pure (← bytes? h, ← nat? ix)
+  | _ => none
+
 /-- raw scripts of one transaction of a case line (`outs '!' ins`, see `fmtTx` in harness/c09.go) -/
 def rawScripts (s : String) : Option (List Bytes × List Bytes) :=
   match s.splitOn "!" with
@@ -72,6 +78,15 @@ def extVsSpec (rawTxs : String) (txs : List Tx) : String :=
       else if (ins.zip tx.ins).any fun (sc, i) => Spec.Script.pushedData sc != i.pushes then
         some s!"ext-vs-spec: txscript and Spec/Script.lean disagree on an input script of tx {j}"
       else none
+  -- the outpoints the EXT section reports are the ones of the case line
+  let rawOps := (rawTxs.splitOn "|").map fun t =>
+    match t.splitOn "!" with
+    | [_, ins] => if ins == "_" then some [] else (ins.splitOn ",").mapM rawInOutPoint
+    | _ => none
+  let bad := if bad.isEmpty && (rawOps.zip txs).any (fun (ro, tx) =>
+      match ro with
+      | some ops => ops != tx.ins.map (fun i => (i.prevHash, i.prevIdx))
+      | none => true) then ["ext-vs-spec: the spent outpoints reported with the case differ from the case line"] else bad
   bad.headD ""
 
 def comb (l r : Bytes) : Bytes := Prim.sha256d (l ++ r)
